@@ -513,7 +513,7 @@ def csv_cases(rng, quick):
                     wkw = dict(pykw)
                     if gname == "escape-char":
                         wkw["quoting"] = csv.QUOTE_ALL
-                    csv.writer(buf, lineterminator="\r\n" if has_cr or rng.random() < 0.5 else "\n", **wkw).writerows(rows)
+                    csv.writer(buf, lineterminator="\r\n" if has_cr or gname == "crlf" or rng.random() < 0.5 else "\n", **wkw).writerows(rows)
                     pytext = buf.getvalue()
                 except csv.Error:
                     pytext = None
